@@ -19,9 +19,9 @@ func init() {
 		Doc: "gbn.Deserialize on every byte string of length 0..3 and, per first byte, every 4-byte string (quick tier: 4-byte strings only for first bytes that are a packet type, 0x00 or 0xFF); successful results are re-serialized and deserialized again",
 	})
 	simrt.Register(&simrt.Scenario{
-		Prop: "C07", Name: "gbn-scripted-syn", Enumerated: true, Count: fixed(256 * 2),
+		Prop: "C07", Name: "gbn-scripted-syn", Enumerated: true, Count: fixed(256 * 3),
 		Run: c07ScriptedSYN, MaxOps: 1 << 20, Horizon: time.Hour,
-		Doc: "a scripted (conforming) client proposes each of the 256 window values to a real server, completes the handshake and exchanges data in both directions; each value once with a plain handshake and once with a restarted one",
+		Doc: "a scripted (conforming) client proposes each of the 256 window values to a real server, completes the handshake and exchanges data in both directions; each value once with a plain handshake, once with a restarted one, and once as a second SYN that replaces a valid first proposal while the server waits for the SYNACK",
 	})
 	simrt.Register(&simrt.Scenario{
 		Prop: "C07", Name: "gbn-inject-live", Count: tiered(1500, 100000),
@@ -111,9 +111,11 @@ func c07Invariants(rc *simrt.RunCtx, who string, g *GoBackNConn) {
 
 func c07ScriptedSYN(rc *simrt.RunCtx) {
 	v := uint8(rc.Idx() % 256)
-	restart := rc.Idx() >= 256
+	restart := rc.Idx()/256 == 1
+	second := rc.Idx()/256 == 2
 	rc.Knob("N", v)
 	rc.Knob("restart", restart)
+	rc.Knob("second-syn", second)
 	rc.Sample("scripted client proposes N=%d (restarted handshake: %v)", v, restart)
 	cfg := &netCfg{latMin: time.Millisecond, latMax: time.Millisecond}
 	np := newNetPair(rc, cfg, &netCfg{latMin: time.Millisecond, latMax: time.Millisecond})
@@ -133,6 +135,12 @@ func c07ScriptedSYN(rc *simrt.RunCtx) {
 		defer cc()
 		b, _ := np.s2c.recv(c)
 		return b
+	}
+	if second {
+		// a valid proposal first; v arrives as a second SYN during the
+		// server's wait for the SYNACK and replaces it
+		send([]byte{SYN, DefaultN})
+		recvT(time.Second)
 	}
 	send([]byte{SYN, v})
 	echo := recvT(time.Second)
@@ -159,13 +167,13 @@ func c07ScriptedSYN(rc *simrt.RunCtx) {
 			srv.Close()
 		}
 		rc.Progress()
-		rc.Fault(fmt.Sprintf("syn-%d-%v", v, restart))
+		rc.Fault(fmt.Sprintf("syn-%d-%v-%v", v, restart, second))
 		return
 	}
 	if serr != nil || srv == nil {
 		rc.Probe("c07.server-refused-window")
 		rc.Progress()
-		rc.Fault(fmt.Sprintf("syn-%d-%v", v, restart))
+		rc.Fault(fmt.Sprintf("syn-%d-%v-%v", v, restart, second))
 		return
 	}
 	c07Invariants(rc, "server", srv)
@@ -222,7 +230,7 @@ func c07ScriptedSYN(rc *simrt.RunCtx) {
 	}
 	srv.Close()
 	rc.Progress()
-	rc.Fault(fmt.Sprintf("syn-%d-%v", v, restart))
+	rc.Fault(fmt.Sprintf("syn-%d-%v-%v", v, restart, second))
 }
 
 // c07Garbage draws one relay-supplied byte string.
